@@ -83,6 +83,7 @@ def jobs(tier, seed):
     nb = file_len(big)
     J.append(dict(name="bf3-p257:replace:last-payload-bytes", kind="replace", shape=big, positions=[nb - 1, nb - 2, nb - 258], n=nb, tier=tier, timeout=7000, cost=400))
     J.append(dict(name="bf3-p257:cut:tail", kind="cut", shape=big, positions=[nb - 1, nb - 2], n=nb, tier=tier, timeout=7000, cost=200))
+    J.append(dict(name="text:cut-inside-comment-header-rejected", kind="hdrcut", shape=shapes(tier)[0], positions=[0], n=0, timeout=600, cost=30))
     J.append(dict(name="vacuity:accepting-path-reachable", kind="reach", shape=shapes(tier)[0], positions=[0], n=file_len(shapes(tier)[0]), expect="violated", timeout=300))
     return J
 
@@ -134,9 +135,66 @@ def structural_mask(sh):
     return [a[i] == b[i] for i in range(len(a))]
 
 
+def header_cut_lemma():
+    """Engine C: a file cut inside the comment header (before the blank separator line is complete)
+    is never accepted.  From the AST of parse_bf3_file: the comment loop only ends at a line equal to
+    the terminator literal; at end of input readline() returns '' which is not the terminator and
+    does not split into two parts -> ValueError -> Bf3FileFormatError.  So acceptance of a prefix P
+    needs a complete terminator line inside P.  Query (unbounded strings, 1 and 2 comments): P is a
+    proper prefix of the header and P contains a terminator line -> unsat."""
+    from props import c01_text
+    from vlib.enginec import smt
+
+    w, prs = c01_text.extract_writer(), c01_text.extract_parser()
+    import re as _re
+
+    m = _re.fullmatch(r"\{\}(.*?)\{\}(.*)", w["comment_fmt"], _re.S)
+    mid, tail, term = m.group(1), m.group(2), prs["terminator"]
+    if term != "\n" or not tail.endswith("\n") or w["writes"][1:2] != ["'\\n'"]:
+        return dict(verdict="inconclusive", state="UNSUPPORTED_SYNTAX", message="terminator/format shape", queries=0, solver_s=0.0)
+    results, tot = [], 0.0
+    for ncom in (1, 2):
+        L = ["(set-logic ALL)"]
+        hdr = []
+        for i in range(ncom):
+            L.append("(declare-const k%d String)(declare-const v%d String)" % (i, i))
+            for x in ("k%d" % i, "v%d" % i):
+                L.append('(assert (not (str.contains %s "\\u{a}")))' % x)
+            hdr += ["k%d" % i, smt.smt_str(mid), "v%d" % i, smt.smt_str(tail)]
+        L.append("(define-fun H () String (str.++ %s %s))" % (" ".join(hdr), smt.smt_str(term)))
+        L.append("(declare-const P String)")
+        L.append("(assert (str.prefixof P H))(assert (< (str.len P) (str.len H)))")
+        # a terminator line inside P: P starts with it, or it follows a line break
+        L.append('(assert (or (str.prefixof %s P) (str.contains P (str.++ "\\u{a}" %s))))' % (smt.smt_str(term), smt.smt_str(term)))
+        L.append("(check-sat)")
+        r = None
+        for solver in ("cvc5", "z3-new"):
+            r = smt.run_smt("\n".join(L), solver, timeout=240)
+            tot += r["time_s"]
+            if r["result"] in ("sat", "unsat"):
+                break
+        results.append((ncom, r["result"], r["solver"]))
+    bad = [x for x in results if x[1] == "sat"]
+    unk = [x for x in results if x[1] not in ("sat", "unsat")]
+    out = dict(queries=len(results), solver_s=round(tot, 2), symbolic_dims=1, message="header-cut lemma (1 and 2 comments, unbounded strings): %s" % results)
+    if unk:
+        out.update(verdict="inconclusive", state="UNKNOWN")
+    elif bad:
+        out.update(verdict="violated", state="SAT", signature="C04:header-cut-accepted", witness={"results": results})
+    else:
+        out.update(verdict="held", state="UNSAT")
+    return out
+
+
 def run_job(job):
     import z3
     from vlib.enginea import sym, runner, stubs
+
+    if job["kind"] == "hdrcut":
+        from vlib import common
+
+        common.setup_paths()
+        return header_cut_lemma()
 
     stubs.load_repo()
     STRUCT = structural_mask(job["shape"])
@@ -307,6 +365,20 @@ def replay(job):
     sh, kind = job["shape"], job["kind"]
     if kind in ("reach",):
         return dict(reproduced=True, signature="twin")
+    if kind == "hdrcut":
+        # concrete: every proper prefix of a two-comment header must be rejected by the real parser
+        from bec2format.error import Bf3FileFormatError
+
+        hdr = "Key A: value 1\nB: x:y\n\n"
+        for i in range(len(hdr)):
+            try:
+                bf.Bf3File.read_file(io.StringIO(hdr[:i]))
+                return dict(reproduced=True, signature="C04:header-cut-accepted", detail="prefix %r accepted" % hdr[:i])
+            except Bf3FileFormatError:
+                pass
+            except Exception as e:
+                return dict(reproduced=True, signature="C04:header-cut-accepted", detail="prefix %r: %s" % (hdr[:i], type(e).__name__))
+        return dict(reproduced=False)
     w = _unhex(job.get("witness") or {})
     rnd = random.Random(3)
     pos = w.get("pos", job["positions"][0])
